@@ -23,6 +23,14 @@ class ParseResult(object):
     self.items = items
 
 
+class CompiledRe(object):
+  """re.compile(pattern) on a constant pattern."""
+  gram_method = True
+
+  def __init__(self, pattern):
+    self.pattern = pattern
+
+
 class GlobalsDict(object):
   gram_method = True
 
@@ -71,6 +79,19 @@ def method(pe, recv, name, args, kwargs):
     if name in ("asList", "as_list"):
       return recv.items
     pe.err("ParseResults method %s is not modelled" % name)
+  if isinstance(recv, CompiledRe):
+    if name in ("match", "search", "fullmatch") and args and \
+        isinstance(args[0], str):
+      from .pe import Opaque
+      try:
+        m = getattr(re.compile(recv.pattern), name)(args[0])
+      except re.error:
+        raise PyRaise("error", "bad regular expression")
+      return Opaque("match") if m is not None else None
+    if name == "sub" and len(args) >= 2 and all(isinstance(a, str)
+                                                for a in args[:2]):
+      return re.sub(recv.pattern, args[0], args[1])
+    pe.err("compiled regex method %s is not modelled" % name)
   if isinstance(recv, GlobalsDict):
     if name == "get":
       key = args[0]
